@@ -19,17 +19,32 @@ and after EVERY operation the following are evaluated:
 When M1/M1' fails after an operation the violation is recorded (keyed by that operation) and the stale polar caches
 are then dropped (`_r = _t = None`, the only perturbation the monitor ever makes, made only after a recorded
 violation) so that the rest of the history can still be monitored instead of re-reporting the same staleness.
+
+Hardening pass (HARDENING.md classes A-D):
+  A  the data array handed to the constructor is C-ordered, Fortran-ordered, a transposed view or a strided view; mask
+     arrays are drawn from a small pool so that the SAME mask object (C- or F-ordered) is passed again later in the
+     history and the later call is judged by the shadow model against a pristine copy; fill / latcal / spike_clip
+     arguments come as python or numpy scalars;
+  B  `copy` (the history continues on the deep copy, caches included) and `read-slices` (slices() populates x, y) join the
+     alphabet;
+  C  a share of the histories runs under `config.precision = 32` with float32 data (float32 thresholds, measured round-off
+     reported in the evidence notes), under precision 32 with float64 data and under precision 64 with float32 data; the
+     precision-32 run of a history comes immediately BEFORE the float64 run of the same history (same shapes, same dx),
+     which is judged at the full float64 tolerance (32 -> 64 switch in one process);
+  D  1xN, Nx1, 3x40 and 40x3 base objects (the first and third also in the quick tier).
 """
 import copy
 import itertools
 
 import numpy as np
 
-RULE = ('planned operation sequences over a 16-class alphabet (read-x/y/r/t, crop, pad, mask, fill, spike_clip, '
-        'remove_piston/tiptilt/power, recenter, latcal, strip_latcal, filter): ALL sequences up to a depth plus seeded '
+RULE = ('planned operation sequences over an 18-class alphabet (read-x/y/r/t, read-slices, crop, pad, mask, fill, spike_clip, '
+        'remove_piston/tiptilt/power, recenter, latcal, strip_latcal, filter, copy): ALL sequences up to a depth plus seeded '
         'random longer ones (deduplicated globally, partitioned over shards by sequence index), each run on base object '
-        'classes (square even/odd, non-square, 1xN in the thorough tier; NaN-free / circular aperture / ragged edge / '
-        'interior dropouts) and dx in {1, 0.37, 12.5}; op variants (pad samples/shape x NaN/finite fill, mask circle/random/edge, latcal scale, clip level, filter '
+        'classes (square even/odd, non-square, 1xN, 3x40, and Nx1 / 40x3 in the thorough tier; NaN-free / circular aperture / '
+        'ragged edge / interior dropouts) and dx in {1, 0.37, 12.5}; data layout in {C, F, transposed view, strided view}; '
+        'configuration in {precision 64 / float64 data, precision 32 / float32 data followed by the float64 run of the same '
+        'history, precision 64 / float32 data, precision 32 / float64 data followed by the float64 run}; op variants (pad samples/shape x NaN/finite fill, mask circle/random/edge, latcal scale, clip level, filter '
         'type) drawn from a per-history seeded rng and written into the descriptor. A history is non-trivial when it '
         'contains at least one state-changing operation; distinct = distinct (base, dx, fully-specified op list). '
         'events list every (cache-population-state x operation) pair executed')
@@ -40,18 +55,46 @@ ASSUMPTIONS = ['deepcopy of an Interferogram is a faithful snapshot of what the 
                'coordinates (what the removed term is in prysm); idempotence through the public call is also checked',
                'rank-deficient fits, |z| within 1e-9 of the clip level, filter on data with NaNs and objects with < 3 '
                'valid samples are out of domain (skipped and counted)',
-               'after a recorded M1 violation the stale polar caches are dropped so monitoring can continue']
+               'after a recorded M1 violation the stale polar caches are dropped (through the public r / t setters) so monitoring can continue',
+               'M1 reads the private fields _x,_y,_r,_t only when the implementation has them; otherwise it is skipped and counted, is not a '
+               'required monitor, and the decision rests on M1\' / M2 / M3, which use the public API only',
+               'float32 thresholds (coordinates built under precision 32: 1e-4 relative; statistics / piston / refit laws on '
+               'float32 data: 1e-4 .. 1e-3 relative) are >= 3 decades above the measured round-off, which is reported in the notes',
+               'a mask array is not modified by mask(): the shadow model predicts from a pristine copy of every mask in the pool']
 REQUIRED = ['M1.cache-coherence(private)', 'M1\'.user-view(deepcopy)', 'M2.shadow-nan-set', 'M3.piston-zero-mean',
             'M3.tilt-refit', 'M3.power-refit', 'M3.crop-laws', 'M3.statistics']
 
 OPS = ['read-x', 'read-y', 'read-r', 'read-t', 'crop', 'pad', 'mask', 'fill', 'spike_clip', 'remove_piston',
-       'remove_tiptilt', 'remove_power', 'recenter', 'latcal', 'strip_latcal', 'filter']
-READS = {'read-x', 'read-y', 'read-r', 'read-t'}
+       'remove_tiptilt', 'remove_power', 'recenter', 'latcal', 'strip_latcal', 'filter', 'copy', 'read-slices']
+READS = {'read-x', 'read-y', 'read-r', 'read-t', 'read-slices'}
 
-BASES_Q = ['sq-even', 'sq-odd-circ', 'nonsq', 'ragged']
-BASES_T = BASES_Q + ['nonsq-circ', 'dropouts', 'line']
+BASES_Q = ['sq-even', 'sq-odd-circ', 'nonsq', 'ragged', 'line', 'wide']
+BASES_T = BASES_Q + ['nonsq-circ', 'dropouts', 'col', 'tall', 'sq-big']
 BASE_SHAPE = {'sq-even': (10, 10), 'sq-odd-circ': (11, 11), 'nonsq': (8, 11), 'ragged': (11, 8),
-              'nonsq-circ': (9, 12), 'dropouts': (12, 12), 'line': (1, 9)}
+              'nonsq-circ': (9, 12), 'dropouts': (12, 12), 'line': (1, 9), 'col': (9, 1), 'wide': (3, 40), 'tall': (40, 3),
+              'sq-big': (24, 24)}
+LAYOUTS = ['C', 'C', 'F', 'T', 'strided']
+RO = {}     # measured float32 round-off per monitor (max err / scale), reported as a note
+
+
+def ro(name, val):
+    v = float(val)
+    if v == v and v > RO.get(name, 0.0):
+        RO[name] = v
+
+
+def relayout(a, layout):
+    a = np.array(a, order='C', copy=True)
+    if layout == 'F':
+        return np.asfortranarray(a)
+    if layout == 'T':
+        return np.ascontiguousarray(a.T).T
+    if layout == 'strided':
+        big = np.full((2 * a.shape[0] + 1, 3 * a.shape[1] + 2), 7.0, dtype=a.dtype)
+        v = big[1::2, 2::3][:a.shape[0], :a.shape[1]]
+        v[...] = a
+        return v
+    return a
 
 
 # ------------------------------------------------------------------------------------------ model helpers
@@ -63,8 +106,21 @@ def make_base(name, bseed):
     yn = i / max(1, n0 // 2)
     z = 10.0 + 5.0 * xn - 3.0 * yn + 4.0 * (xn * xn + yn * yn) + rng.standard_normal((n0, n1))
     for _ in range(2):   # spikes so that spike_clip has something to do
-        z[int(rng.integers(0, n0)), int(rng.integers(1, n1 - 1))] += float(rng.choice([-15.0, 15.0]))
+        z[int(rng.integers(0, n0)), int(rng.integers(1, n1 - 1)) if n1 > 2 else 0] += float(rng.choice([-15.0, 15.0]))
     rr = np.hypot(i, j)
+    if name == 'col':
+        z[0, 0] = np.nan
+        z[5, 0] = np.nan
+    if name == 'wide':
+        z[:, :3] = np.nan
+        z[1, 20] = np.nan
+        z[0, 33:] = np.nan
+    if name == 'tall':
+        z[-4:, :] = np.nan
+        z[7, 1] = np.nan
+    if name == 'sq-big':
+        z[rr > 11.3] = np.nan
+        z[3:6, 12] = np.nan
     if name in ('sq-odd-circ', 'nonsq-circ'):
         z[rr > min(n0, n1) / 2 - 0.5] = np.nan
     if name == 'ragged':
@@ -97,22 +153,39 @@ def ang_err(t, tref, r):
     return float(d.max()) if d.size else 0.0
 
 
-def cache_state(o):
-    xy = o._x is not None or o._y is not None
-    rt = o._r is not None or o._t is not None
+PRIVATE = ('_x', '_y', '_r', '_t')
+M1 = 'M1.cache-coherence(private)'
+
+
+def has_private_caches(o):
+    """The four lazily filled cache fields this monitor knows by name.  They are an implementation detail: when an
+    implementation stores its caches differently, M1 (the invariant on those fields) cannot be evaluated and is skipped and
+    counted; M1' (public view of a deep copy), M2 and M3 use the public API only."""
+    return all(hasattr(o, n) for n in PRIVATE)
+
+
+def cache_state(o, inferred=None):
+    """Label of the cache-population state of the object (evidence only).  From the private fields when they exist, else
+    inferred from which public coordinate properties the history has read / which operations rebuilt or dropped them."""
+    if not has_private_caches(o):
+        return (inferred or 'fresh') + '~'
+    px, py, pr, pt = (getattr(o, n, None) for n in PRIVATE)
+    xy = px is not None or py is not None
+    rt = pr is not None or pt is not None
     if not xy and not rt:
         return 'fresh'
     s = ('xy' if xy else '') + ('+rt' if rt else '')
-    x = o._x
-    if xy and x is not None and x.shape == o.data.shape and x.ndim == 2:
+    x = px
+    if xy and x is not None and x.shape == o.data.shape and x.ndim == 2 and x.size:
         c = tuple(n // 2 for n in x.shape)
-        if x[c] != 0 or (o._y is not None and o._y.shape == x.shape and o._y[c] != 0):
+        if x[c] != 0 or (py is not None and py.shape == x.shape and py[c] != 0):
             s += '/offcentre'
     return s
 
 
-def coords_problems(shape, dx, x, y, r, t):
+def coords_problems(shape, dx, x, y, r, t, rt=1e-9):
     """Problems of a coordinate set (any of which may be None = not cached) against data shape and dx.
+    `rt` is the relative threshold (1e-9 for float64 grids, 1e-4 for grids built under precision 32).
     Returns list of (kind, detail)."""
     out = []
     ok = {}
@@ -124,28 +197,36 @@ def coords_problems(shape, dx, x, y, r, t):
     dx = float(dx)
     if x is not None and shape[1] > 1:
         sc = max(float(np.abs(x).max()), abs(dx))
-        e = float(np.abs(np.diff(x, axis=1) - dx).max())
-        if not e <= 1e-9 * sc:
+        e = float(np.abs(np.diff(x, axis=1).astype(float) - dx).max())
+        if rt > 1e-9:
+            ro('coords.spacing', e / sc)
+        if not e <= rt * sc:
             out.append(('x:spacing', f'x spacing differs from dx={dx} by {e:.3g}'))
     if y is not None and shape[0] > 1:
         sc = max(float(np.abs(y).max()), abs(dx))
-        e = float(np.abs(np.diff(y, axis=0) - dx).max())
-        if not e <= 1e-9 * sc:
+        e = float(np.abs(np.diff(y, axis=0).astype(float) - dx).max())
+        if rt > 1e-9:
+            ro('coords.spacing', e / sc)
+        if not e <= rt * sc:
             out.append(('y:spacing', f'y spacing differs from dx={dx} by {e:.3g}'))
     if r is not None or t is not None:
         if x is not None and y is not None:
-            X, Y = x, y
+            X, Y = np.asarray(x, dtype=float), np.asarray(y, dtype=float)
         else:
             X, Y = grid(shape, dx)
         R = np.hypot(X, Y)
         sc = max(float(R.max()), abs(dx))
         if r is not None:
             e = float(np.abs(r - R).max())
-            if not e <= 1e-9 * sc:
+            if rt > 1e-9:
+                ro('coords.polar-r', e / sc)
+            if not e <= rt * sc:
                 out.append(('r:stale', f'r differs from hypot(x,y) of the current grid by {e:.3g} (scale {sc:.3g})'))
         if t is not None:
             e = ang_err(t, np.arctan2(Y, X), R)
-            if not e <= 1e-9:
+            if rt > 1e-9:
+                ro('coords.polar-t', e)
+            if not e <= rt:
                 out.append(('t:stale', f't differs from arctan2(y,x) of the current grid by {e:.3g} rad'))
     return out
 
@@ -178,13 +259,14 @@ def draw_variant(op, rng):
         return f'pad:{kind}:{k0},{k1}:{val}'
     if op == 'mask':
         kind = ['circle', 'random', 'edge'][int(rng.integers(3))]
-        return f'mask:{kind}:{int(rng.integers(1, 10**6))}'
+        # a small pool of seeds per history, so that the SAME mask object is passed again later in the history
+        return f'mask:{kind}:{int(rng.integers(1, 4))}{["", "F"][int(rng.integers(2))]}'
     if op == 'fill':
-        return 'fill:' + ['0', '2.5'][int(rng.integers(2))]
+        return 'fill:' + ['0', '2.5', '2.5@np32', '0@np64'][int(rng.integers(4))]
     if op == 'spike_clip':
-        return 'spike_clip:' + ['3', '2', '1.5'][int(rng.integers(3))]
+        return 'spike_clip:' + ['3', '2', '1.5', '2@int'][int(rng.integers(4))]
     if op == 'latcal':
-        return 'latcal:' + ['2.0', '0.1', '3.3'][int(rng.integers(3))]
+        return 'latcal:' + ['2.0', '0.1', '3.3', '2@int', '0.5@np32', '3.3@np64'][int(rng.integers(6))]
     if op == 'filter':
         return 'filter:' + ['lp', 'hp'][int(rng.integers(2))] + ':' + ['0.3', '0.6'][int(rng.integers(2))]
     return op
@@ -192,6 +274,18 @@ def draw_variant(op, rng):
 
 def op_class(opv):
     return opv.split(':', 1)[0]
+
+
+def scalar_arg(txt):
+    """'2.5' -> 2.5 ; '2@int' -> 2 (python int) ; '0.5@np32' -> numpy.float32(0.5) ; '3.3@np64' -> numpy.float64(3.3)."""
+    v, _, c = txt.partition('@')
+    if c == 'int':
+        return int(v)
+    if c == 'np32':
+        return np.float32(v)
+    if c == 'np64':
+        return np.float64(v)
+    return float(v)
 
 
 def make_mask(kind, seed, shape):
@@ -224,21 +318,44 @@ class History:
         from prysm.interferogram import Interferogram
         self.ctx = ctx
         self.desc = desc
-        z = make_base(desc['base'], desc['bseed'])
-        self.obj = Interferogram(z.copy(), dx=desc['dx'])
+        z = make_base(desc['base'], desc['bseed']).astype(desc.get('dtype', 'float64'))
+        self.prec = int(desc.get('prec', 64))
+        self.lowp = self.prec == 32 or desc.get('dtype', 'float64') == 'float32'
+        self.rt = 1e-9 if self.prec == 64 else 1e-4            # coordinates are built in the configured precision
+        self.obj = Interferogram(relayout(z, desc.get('layout', 'C')), dx=desc['dx'])
+        self.populated = set()   # inferred cache population ('xy', 'rt') from the public reads / rebuilding ops of this history
+        self.masks = {}      # (variant, shape) -> (mask object handed to prysm, pristine copy the model predicts from)
         self.executed = []
         self.skipped_ops = 0
         self.dead = False
+
+    def tol(self, f64, f32):
+        return f32 if self.lowp else f64
+
+    def pooled_mask(self, opv, shape):
+        _, kind, seed = opv.split(':')
+        forder = seed.endswith('F')
+        key = (kind, seed, tuple(shape))
+        if key not in self.masks:
+            m = make_mask(kind, seed.rstrip('F'), shape)
+            self.masks[key] = (np.asfortranarray(m) if forder else m, m.copy())
+        else:
+            self.ctx.event('mask.same-object-passed-again')
+        return self.masks[key]
 
     # -- monitors evaluated after every step ---------------------------------------------------------------
     def invariant(self, opc, pos):
         ctx, o, desc = self.ctx, self.obj, self.desc
         shape = o.data.shape
-        ctx.observe('M1.cache-coherence(private)')
-        p1 = coords_problems(shape, o.dx, o._x, o._y, o._r, o._t)
+        if has_private_caches(o):
+            ctx.observe(M1)
+            p1 = coords_problems(shape, o.dx, *(getattr(o, n, None) for n in PRIVATE), self.rt)
+        else:
+            ctx.skip('M1: private cache fields not present in this implementation')
+            p1 = []
         ctx.observe("M1'.user-view(deepcopy)")
         c = copy.deepcopy(o)
-        p2 = coords_problems(shape, c.dx, c.x, c.y, c.r, c.t)
+        p2 = coords_problems(shape, c.dx, c.x, c.y, c.r, c.t, self.rt)
         if c.dx != o.dx or not same(c.data, o.data):
             p2.append(('copy', 'deepcopy differs from the object'))
         if p1 or p2:
@@ -257,8 +374,9 @@ class History:
                 what = f'after {opc} the public x/y/r/t are incoherent with data/dx: ' + '; '.join(d for _, d in p2)
             ctx.violation(key, what, desc, step=pos, executed=self.executed, private=[k for k, _ in p1], public=[k for k, _ in p2])
             if polar_only:
-                o._r = None
-                o._t = None
+                o.r = None      # through the public setters: "not computed", whatever the storage is
+                o.t = None
+                self.populated.discard('rt')
                 ctx.event('monitor.dropped-stale-polar-cache-after-recorded-violation')
             else:
                 self.dead = True
@@ -273,7 +391,9 @@ class History:
         ctx.observe('M3.statistics')
         with ctx.guard('C12/statistics', desc):
             got = {'pv': o.pv, 'rms': o.rms, 'Sa': o.Sa, 'std': o.std}
-            tol = 1e-10 * max(s['scale'], 1e-300)
+            tol = self.tol(1e-10, 1e-4) * max(s['scale'], 1e-300)
+            if self.lowp:
+                ro('statistics.value', max(abs(float(got[k]) - s[k]) for k in got) / max(s['scale'], 1e-300))
             bad = [k for k in got if not abs(float(got[k]) - s[k]) <= tol]
             if bad:
                 nan = 'has-nan' if np.isnan(d).any() else 'nan-free'
@@ -282,7 +402,9 @@ class History:
                               got={k: got[k] for k in bad}, ref={k: s[k] for k in bad})
                 return
             r2 = float(got['rms']) ** 2
-            ok = abs(r2 - (float(got['std']) ** 2 + s['mean'] ** 2)) <= 1e-10 * max(r2, 1e-300)
+            if self.lowp:
+                ro('statistics.identity', abs(r2 - (float(got['std']) ** 2 + s['mean'] ** 2)) / max(r2, s['scale'] ** 2, 1e-300))
+            ok = abs(r2 - (float(got['std']) ** 2 + s['mean'] ** 2)) <= (1e-10 * max(r2, 1e-300) if not self.lowp else 1e-3 * max(r2, s['scale'] ** 2))
             ok = ok and float(got['Sa']) <= float(got['std']) * (1 + 1e-12) + tol and float(got['std']) <= float(got['pv']) * (1 + 1e-12) + tol
             if not ok:
                 ctx.violation('C12/statistics/identities', 'rms^2 != std^2 + mean^2 or not Sa <= std <= PV', desc, step=pos, got=got)
@@ -295,7 +417,7 @@ class History:
         bnan = ~np.isfinite(before)
         nvalid = int((~bnan).sum())
         shape = before.shape
-        state = cache_state(o)
+        state = cache_state(o, '+'.join(k for k in ('xy', 'rt') if k in self.populated))
         arg = None
 
         # ---- domain -------------------------------------------------------------------------------------
@@ -306,15 +428,15 @@ class History:
         if opc == 'filter' and bnan.any():
             ctx.skip('filter: data has NaNs (out of domain)')
             return False
+        marg = None
         if opc == 'mask':
-            _, kind, seed = opv.split(':')
-            arg = make_mask(kind, seed, shape)
+            marg, arg = self.pooled_mask(opv, shape)     # marg: the object prysm gets; arg: pristine copy for the model
             if int((arg & ~bnan).sum()) < 3:
                 ctx.skip('mask: would leave fewer than 3 valid samples')
                 return False
         if opc == 'remove_tiptilt':
             c = copy.deepcopy(o)
-            A = np.stack([c.x[~bnan], c.y[~bnan]], axis=1)
+            A = np.stack([c.x[~bnan], c.y[~bnan]], axis=1).astype(float)
             sv = np.linalg.svd(A, compute_uv=False)
             if not (sv[-1] > 1e-4 * sv[0]):
                 ctx.skip('remove_tiptilt: plane fit rank-deficient on the valid samples')
@@ -327,10 +449,15 @@ class History:
                 return False
 
         ctx.event(f'{state}|{opc}')
+        nviol0 = sum(v['count'] for v in ctx.violations.values())
         # ---- the real call ------------------------------------------------------------------------------
         try:
-            if opc in READS:
+            if opc == 'read-slices':
+                o.slices()
+            elif opc in READS:
                 getattr(o, opc[-1])
+            elif opc == 'copy':
+                self.obj = o = o.copy()
             elif opc == 'crop':
                 o.crop()
             elif opc == 'pad':
@@ -351,16 +478,19 @@ class History:
                     arg = (n, n)
                     o.pad(value, shape=n)
             elif opc == 'mask':
-                o.mask(arg)
+                o.mask(marg)
             elif opc == 'fill':
-                arg = float(opv.split(':')[1])
-                o.fill(arg)
+                a_ = scalar_arg(opv.split(':')[1])
+                arg = float(a_)
+                o.fill(a_)
             elif opc == 'spike_clip':
-                arg = float(opv.split(':')[1])
-                o.spike_clip(arg)
+                a_ = scalar_arg(opv.split(':')[1])
+                arg = float(a_)
+                o.spike_clip(a_)
             elif opc == 'latcal':
-                arg = float(opv.split(':')[1])
-                o.latcal(arg)
+                a_ = scalar_arg(opv.split(':')[1])
+                arg = float(a_)
+                o.latcal(a_)
             elif opc == 'filter':
                 _, typ, frac = opv.split(':')
                 o.filter(float(frac) / (2 * float(o.dx)), typ)
@@ -375,13 +505,19 @@ class History:
             self.dead = True
             return True
         self.executed.append(opv)
+        if opc in ('read-x', 'read-y', 'read-slices', 'remove_tiptilt', 'recenter', 'latcal', 'strip_latcal', 'pad'):
+            self.populated.add('xy')
+        if opc in ('read-r', 'read-t', 'filter'):
+            self.populated.update(('xy', 'rt'))
+        if opc in ('recenter', 'latcal', 'strip_latcal', 'pad'):
+            self.populated.discard('rt')
 
         # ---- M2 shadow model of data / NaN set ----------------------------------------------------------
         after = o.data
         anan = ~np.isfinite(after)
         ctx.observe('M2.shadow-nan-set')
         key = f'C12/shadow/{opc}'
-        if opc in READS or opc in ('recenter', 'latcal', 'strip_latcal'):
+        if opc in READS or opc in ('recenter', 'latcal', 'strip_latcal', 'copy'):
             if not same(after, before):
                 ctx.violation(key + '/data-changed', f'{opc} changed the data', desc, step=pos)
         elif opc in ('remove_piston', 'remove_tiptilt', 'remove_power'):
@@ -396,16 +532,16 @@ class History:
         elif opc == 'fill':
             if after.shape != shape or anan.any():
                 ctx.violation(key + '/nan-set', 'fill(v) left invalid samples', desc, step=pos, remaining=int(anan.sum()))
-            elif not (np.array_equal(after[~bnan], before[~bnan]) and (after[bnan] == arg).all()):
+            elif not (np.array_equal(after[~bnan], before[~bnan]) and (after[bnan] == np.asarray(arg).astype(after.dtype)).all()):
                 ctx.violation(key + '/values', 'fill(v) changed valid samples or did not write v into the invalid ones', desc, step=pos)
         elif opc == 'spike_clip':
             s = finite_stats(before)
             lvl = arg * s['std']
             mag = np.abs(np.where(bnan, 0.0, before))
-            band = np.abs(mag - lvl) <= 1e-9 * max(lvl, s['scale'])
+            band = np.abs(mag - lvl) <= self.tol(1e-9, 1e-4) * max(lvl, s['scale'])
             exp = bnan | (mag > lvl)
             if band.any():
-                ctx.skip('spike_clip: samples within 1e-9 of the clip level not compared', int(band.sum()))
+                ctx.skip('spike_clip: samples within 1e-9 (float32: 1e-4) of the clip level not compared', int(band.sum()))
             if after.shape != shape or not np.array_equal(anan[~band], exp[~band]):
                 ctx.violation(key + '/nan-set', 'spike_clip(k): invalid set is not old | {|z| > k*std(valid)}', desc, step=pos)
             elif not np.array_equal(after[~exp & ~band], before[~exp & ~band]):
@@ -418,12 +554,21 @@ class History:
         elif opc == 'crop':
             self._check_crop(before, bnan, after, pos)
 
+        if o.data.size == 0:      # nothing further can be monitored on an empty array (the op that emptied it has been judged above)
+            if before.size and sum(v['count'] for v in ctx.violations.values()) == nviol0:
+                ctx.violation(f'C12/shadow/{opc}/empty-data', f'{opc} left an array without samples (shape {o.data.shape})', desc, step=pos,
+                              executed=self.executed)
+            self.dead = True
+            return True
+
         # ---- M3 laws for this op ------------------------------------------------------------------------
         if opc == 'remove_piston':
             s = finite_stats(after)
             sc = float(np.abs(before[~bnan]).max())
             ctx.observe('M3.piston-zero-mean')
-            if not abs(s['mean']) <= 1e-9 * max(sc, 1e-300):
+            if self.lowp:
+                ro('piston.mean', abs(s['mean']) / max(sc, 1e-300))
+            if not abs(s['mean']) <= self.tol(1e-9, 1e-4) * max(sc, 1e-300):
                 ctx.violation('C12/remove_piston/mean-not-zero', 'mean of the valid samples after remove_piston is not 0', desc,
                               step=pos, mean=s['mean'], scale=sc)
         elif opc == 'remove_tiptilt' and not self.dead:
@@ -450,22 +595,26 @@ class History:
         sc = max(float(np.abs(before[valid]).max()), 1e-300)
         c = copy.deepcopy(o)
         if which == 'tilt':
-            A = np.stack([c.x[valid], c.y[valid]], axis=1)
+            A = np.stack([c.x[valid], c.y[valid]], axis=1).astype(float)
         else:
             A = self._power_design(after.shape, valid)
-        coef = np.linalg.lstsq(A, after[valid], rcond=None)[0]
+        coef = np.linalg.lstsq(A, after[valid].astype(float), rcond=None)[0]
         ncoef = 2 if which == 'tilt' else 1    # the constant of the power fit is not removed by remove_power
         term = float(np.abs(A[:, :ncoef] @ coef[:ncoef]).max())
         mon = f'M3.{which}-refit'
         ctx.observe(mon)
         name = 'remove_tiptilt' if which == 'tilt' else 'remove_power'
-        if not term <= 1e-9 * sc:
+        if self.lowp:
+            ro(f'{which}.refit-term', term / sc)
+        if not term <= self.tol(1e-9, 1e-3) * sc:
             ctx.violation(f'C12/{name}/refit-finds-residual-term', f're-fitting the {which} term after {name} finds a term of size {term:.3g} (data scale {sc:.3g})',
                           desc, step=pos, executed=self.executed)
             return
         getattr(c, name)()
         e = float(np.abs(c.data[valid] - after[valid]).max()) if c.data.shape == after.shape else float('inf')
-        if not e <= 1e-9 * sc:
+        if self.lowp:
+            ro(f'{which}.second-call', e / sc)
+        if not e <= self.tol(1e-9, 1e-3) * sc:
             ctx.violation(f'C12/{name}/not-idempotent', f'a second {name} changes the data by {e:.3g} (data scale {sc:.3g})', desc, step=pos,
                           executed=self.executed)
 
@@ -511,6 +660,15 @@ class History:
                           '(invalid set must be the old one, plus the border when the fill is NaN)', desc, step=pos)
 
     def run(self):
+        from ..util import precision
+        with precision(self.prec):
+            try:
+                return self._run()
+            except Exception as e:      # the MONITOR failed on an object state it cannot handle (never a verdict): counted, visible in the evidence
+                self.ctx.skip(f'monitor aborted a history ({type(e).__name__}) - rest of that history not monitored')
+                return False
+
+    def _run(self):
         ctx = self.ctx
         # the fresh object must already satisfy everything
         self.invariant('construct', -1)
@@ -537,8 +695,8 @@ def plan_sequences(ctx):
     nexh = len(seqs)
     seen = set(seqs)
     rng = np.random.default_rng([ctx.seed, 12, 0xC12])
-    nrand = ctx.pick(1200, 20000)
-    lo, hi = depth + 1, ctx.pick(8, 14)
+    nrand = ctx.pick(1200, 60000)
+    lo, hi = depth + 1, ctx.pick(8, 18)
     tries = 0
     while len(seqs) < nexh + nrand and tries < 20 * nrand:
         tries += 1
@@ -550,13 +708,36 @@ def plan_sequences(ctx):
     return seqs, nexh, depth
 
 
+CONFIGS = {0: [(32, 'float32'), (64, 'float64')],      # float32 warm-up of the same history, then the float64 run (32 -> 64 switch)
+           1: [(64, 'float32')],                         # mixed: float32 data under precision 64
+           2: [(32, 'float64'), (64, 'float64')]}        # mixed: float64 data under precision 32, then the float64 run
+
+
+def _probe_private(ctx):
+    """M1 is required only when the implementation has the private cache fields it inspects."""
+    from prysm.interferogram import Interferogram
+    o = Interferogram(np.zeros((2, 2)), dx=1.0)
+    ok = has_private_caches(o)
+    if not ok and M1 in REQUIRED:
+        REQUIRED.remove(M1)
+    if ok and M1 not in REQUIRED:
+        REQUIRED.insert(0, M1)
+    ctx.note('M1.private-cache-fields', 'present: M1 evaluated on _x,_y,_r,_t' if ok else
+             'NOT present in this implementation: M1 skipped (counted), cache-population states in the events are inferred (suffix ~); '
+             "M1' (public view of a deep copy), M2 and M3 decide")
+    return ok
+
+
 def _run(ctx):
+    RO.clear()
+    _probe_private(ctx)
     seqs, nexh, depth = plan_sequences(ctx)
     bases = BASES_Q if ctx.quick else BASES_T
     dxs = [1.0, 0.37, 12.5]
     pairs = set()
     nfull = 0
     nplanned = 0
+    hcount = 0
     nsmall = sum(len(OPS) ** L for L in (1, 2))   # the shortest histories all run on shard 0, first => near-minimal witnesses
     for j, s in enumerate(seqs):
         if (ctx.shard != 0) if j < nsmall else (not ctx.mine(j)):
@@ -568,24 +749,30 @@ def _run(ctx):
         elif exhaustive_part:
             combos = [(b, dx) for b in bases for dx in dxs]
         else:
-            combos = [(bases[(j + k) % len(bases)], dxs[(j + k) % 3]) for k in range(3)]
+            combos = [(bases[(j + k) % len(bases)], dxs[(j + k) % 3]) for k in range(4)]
         any_full = False
         for b, dx in combos:
+            hcount += 1
             vr = np.random.default_rng([ctx.seed, j, sum(map(ord, b)), int(dx * 100)])
             ops = [draw_variant(OPS[i], vr) for i in s]
-            desc = {'class': f'{b}|len={len(s)}', 'base': b, 'bseed': ctx.seed, 'dx': dx, 'ops': ops}
-            ctx.case(desc, nontrivial=any(op_class(o) not in READS for o in ops))
-            h = History(ctx, desc)
-            full = h.run()
-            any_full = any_full or full
+            layout = LAYOUTS[hcount % len(LAYOUTS)]
+            for prec, dtype in CONFIGS.get(hcount % 6, [(64, 'float64')]):
+                desc = {'class': f'{b}|len={len(s)}|p{prec}/{dtype}', 'base': b, 'bseed': ctx.seed, 'dx': dx, 'ops': ops, 'layout': layout,
+                        'prec': prec, 'dtype': dtype}
+                ctx.case(desc, nontrivial=any(op_class(o) not in READS for o in ops))
+                h = History(ctx, desc)
+                full = h.run()
+                any_full = any_full or full
         nfull += 1 if any_full else 0
     ctx.event('histories.distinct-planned-op-class-sequences', nplanned)
     ctx.event('histories.distinct-op-class-sequences-executed-in-full-on-some-base', nfull)
     npairs = sum(1 for k in ctx.events if '|' in k)
     ctx.note(f'shard{ctx.shard}.distinct-(cache-state x op)-pairs', npairs)
+    ctx.note(f'shard{ctx.shard}.float32-roundoff-max(err/scale) [thresholds: coords 1e-4, statistics 1e-4, identity 1e-3, piston 1e-4, refit 1e-3]',
+             {k: float(f'{v:.3g}') for k, v in sorted(RO.items())})
     ctx.note('alphabet', OPS)
     ctx.note('exhaustive-part', f'all {nexh} op-class sequences of length <= {depth} over the {len(OPS)}-class alphabet, on every base object'
-             + ('' if ctx.quick else ' and every dx in {1, 0.37, 12.5}') + f'; plus {len(seqs) - nexh} distinct random sequences of length {depth + 1}..{ctx.pick(8, 14)}')
+             + ('' if ctx.quick else ' and every dx in {1, 0.37, 12.5}') + f'; plus {len(seqs) - nexh} distinct random sequences of length {depth + 1}..{ctx.pick(8, 18)}')
     ctx.note('events-legend', "'<cache-population-state>|<op>' = op executed on an object in that state (fresh = nothing cached; xy = _x,_y cached; "
              "xy+rt = all four cached; /offcentre = cached x,y not origin-centred, i.e. after a crop)")
 
@@ -595,6 +782,7 @@ def run(ctx):
 
 
 def replay(ctx, rec):
+    _probe_private(ctx)
     ws = rec.get('witnesses') or []
     done = False
     for w in ws:
